@@ -109,6 +109,27 @@ theorem link_exact {a b : Nat} {h : List (Nat × Nat)} (hf : Forest ((a, b) :: h
     rw [isSpec_outside hnc]
     exact inv.oldE v hv r
 
+/-- **the traversal of one `link` visits exactly the merged component of `a`, each node once** -/
+theorem link_visits {a b : Nat} {h : List (Nat × Nat)} (hf : Forest ((a, b) :: h)) {fuel : Nat}
+    {g g' : Graph} {vis : List Nat} (hex : Exact h g)
+    (hup : update fuel (preLink g a b) [] a = some (g', vis)) :
+    vis.Nodup ∧ ∀ v, v ∈ vis ↔ Conn ((a, b) :: h) a v := by
+  have inv0 : TInv a b h (preLink g a b) [] := by
+    refine ⟨?_, ?_, ?_, ?_⟩
+    · intro u v; rw [preLink_nbrs, lk_cons, hex.1 u v]
+    · intro v hv; simp at hv
+    · intro v _ r; rw [preLink_routes]; exact hex.2 v r
+    · intro v hv; simp at hv
+  obtain ⟨inv, _, ha, hclosed⟩ := update_inv hf fuel _ _ _ _ _ hup inv0 (Conn.refl _ _) (Or.inl rfl)
+  refine ⟨update_nodup fuel _ _ _ _ _ hup (by simp) List.nodup_nil, ?_⟩
+  intro v
+  constructor
+  · intro hv; exact (inv.anc v hv).1.symm
+  · intro hc
+    induction hc with
+    | refl => exact ha
+    | tail _ hlk ih => exact hclosed _ ih (by simp) _ hlk
+
 /-- **enough fuel for one link**: every endpoint is listed in `nodes` and `fuel ≥ nodes.length` -/
 theorem link_some {a b : Nat} {h : List (Nat × Nat)} (nodes : List Nat)
     (hnodes : ∀ e ∈ (a, b) :: h, e.1 ∈ nodes ∧ e.2 ∈ nodes) {fuel : Nat} (hfuel : nodes.length ≤ fuel)
